@@ -867,3 +867,17 @@ def gen_module(rng, profile=None):
             P.attrs.append(AttrDecl(tk=a2.tk, default=d, annotated=False))
         classes.append(P)
     return ModuleDecl(classes=classes, leaf_bootstrap=rng.random() < 0.7)
+
+
+_MODCOUNT = [0]
+
+
+def exec_module(source, extra=None, prefix="verif_adhoc"):
+    """exec `source` in a real module registered in sys.modules (lazy bootstrap resolves annotations through it)."""
+    _MODCOUNT[0] += 1
+    name = f"{prefix}_{_MODCOUNT[0]}"
+    mod = types.ModuleType(name)
+    sys.modules[name] = mod
+    mod.__dict__.update(extra or {})
+    exec(compile(source, f"<{name}>", "exec"), mod.__dict__)
+    return mod
